@@ -160,10 +160,20 @@ def strip_comments(txt):
     return ''.join(out)
 
 
+def _big_stack():
+    # long list literals (tens of thousands of elements) overflow the default 8 MB stack of the Coq parser
+    import resource
+    try:
+        hard = resource.getrlimit(resource.RLIMIT_STACK)[1]
+        resource.setrlimit(resource.RLIMIT_STACK, (hard, hard))
+    except Exception:
+        pass
+
+
 def coqc(path, timeout=900, cwd=None):
     t0 = time.time()
     cmd = ['timeout', str(timeout), 'coqc'] + COQ_ARGS + [path]
-    r = subprocess.run(cmd, capture_output=True, text=True, cwd=cwd or os.path.dirname(path))
+    r = subprocess.run(cmd, capture_output=True, text=True, cwd=cwd or os.path.dirname(path), preexec_fn=_big_stack)
     return r.returncode, r.stdout, r.stderr, time.time() - t0
 
 
